@@ -73,6 +73,13 @@ def run(ctx):
     # serializer still returns Ok (shared with C13 / C14 / C15)
     from .c14 import pool_rule
     pool_rule(ctx)
+    # decimal text is parsed exactly or refused (shared with C01)
+    from .c01 import decimal_exact_parse_rule
+    decimal_exact_parse_rule(ctx)
+    # an enum's symbol -> index table holds one index per symbol (a repeated symbol is an error at freeze: with "last one
+    # wins" the symbol is written with one index while another index reads back as the same symbol) (shared with C13)
+    from .c13 import fieldnames_rule
+    fieldnames_rule(ctx, adt='Enum', rule='ENUM', key='one-index-per-symbol')
     f = ctx.f
     m = matrix(f)
     ctx.floor('WIRE', 'serializer functions matching on the schema node', len(m), 13)
